@@ -29,10 +29,10 @@ import (
 // which means that it is the remnant of an interrupted run.
 // go/build refuses to load a package that contains a file with an unreadable header,
 // or a package clause that was cut inside the package name, and the file is about to be regenerated anyway.
-func removeUnreadableDerived(paths []string) {
+func removeUnreadableDerived(paths []string) error {
 	cwd, err := os.Getwd()
 	if err != nil {
-		return
+		return nil
 	}
 	for _, path := range paths {
 		pkg, err := build.Import(path, cwd, build.FindOnly)
@@ -46,9 +46,13 @@ func removeUnreadableDerived(paths []string) {
 		}
 		_, err = parser.ParseFile(token.NewFileSet(), filename, src, 0)
 		if err != nil || len(src) == 0 || src[len(src)-1] != '\n' {
-			os.Remove(filename)
+			// When the remnant stays, the package is skipped without a word, or cannot be loaded.
+			if err := os.Remove(filename); err != nil {
+				return fmt.Errorf("could not remove the remnant of an interrupted run: %v", err)
+			}
 		}
 	}
+	return nil
 }
 
 func load(paths ...string) (*loader.Program, error) {
@@ -57,7 +61,9 @@ func load(paths ...string) (*loader.Program, error) {
 		AllowErrors: true,
 	}
 	conf.TypeChecker.Error = func(err error) {}
-	removeUnreadableDerived(paths)
+	if err := removeUnreadableDerived(paths); err != nil {
+		return nil, err
+	}
 	rest, err := conf.FromArgs(paths, true)
 	if err != nil {
 		return nil, fmt.Errorf("could not parse arguments: %s", err)
